@@ -1,4 +1,4 @@
-import Typegen.Run
+import Typegen.RunTheorems
 /-! The build-script path (`BuildSystem::run_generation`): after a successful `generate_bindings` the output manager
     cleans the output directory up — of the names it finds there, those it regards as generated (`is_generated_file`)
     and that the run did not hand back in its list are removed (`OutputManager::finalize_generation` /
@@ -110,5 +110,61 @@ theorem runBuildF_false (S : Sys Src Cfg Key Content) (isGen : Name → Bool) (p
     (forced : Bool) (fault : Option Nat) (o : Out Key Content) :
     runBuildF S isGen present false src cfg forced fault o = runBuild S isGen present src cfg forced fault o := by
   unfold runBuildF; simp
+
+/-! ### histories that mix the two entry points -/
+
+theorem finalize_inv (S : Sys Src Cfg Key Content) (isGen : Name → Bool) (present kept : List Name) (o : Out Key Content)
+    (hI : Inv S o) : Inv S (finalize isGen present kept o) := by
+  unfold finalize
+  generalize present.filter (fun n => isGen n && !(kept.contains n)) = l
+  induction l generalizing o with
+  | nil => exact hI
+  | cons a as ih => simp only [List.foldl_cons]; exact ih _ (delete_inv S o a hI)
+
+theorem runBuildF_inv (S : Sys Src Cfg Key Content) (isGen : Name → Bool) (present : List Name) (cf : Bool) (src : Src) (cfg : Cfg)
+    (forced : Bool) (fault : Option Nat) (o : Out Key Content)
+    (keySound : ∀ s c s' c', S.key s c = S.key s' c' → S.gen s c = S.gen s' c')
+    (hd : NamesDistinct (S.gen src cfg)) (hI : Inv S o) :
+    Inv S (runBuildF S isGen present cf src cfg forced fault o).2.2 := by
+  have hrun := run_inv S src cfg o forced fault keySound hd hI
+  have hb : Inv S (runBuild S isGen present src cfg forced fault o).2.2 := by
+    unfold runBuild
+    simp only []
+    split
+    · exact finalize_inv S isGen present _ _ hrun
+    · exact hrun
+  unfold runBuildF
+  simp only []
+  split
+  · intro s c h; simp [applyOp] at h
+  · exact hb
+
+/-- a step of a history over one output directory: everything `Step` has, and a build-script run (with the directory
+    listing the clean-up sees and whether the clean-up fails) -/
+inductive MStep (Src Cfg : Type) where
+  | base (st : Step Src Cfg)
+  | buildRun (present : List Name) (cleanupFails : Bool) (forced : Bool) (fault : Option Nat)
+
+def mstep (S : Sys Src Cfg Key Content) (isGen : Name → Bool) (w : World Src Cfg Key Content) : MStep Src Cfg → World Src Cfg Key Content
+  | .base st => step S w st
+  | .buildRun present cf forced fault => { w with out := (runBuildF S isGen present cf w.src w.cfg forced fault w.out).2.2 }
+
+def mexec (S : Sys Src Cfg Key Content) (isGen : Name → Bool) (w : World Src Cfg Key Content) (h : List (MStep Src Cfg)) :
+    World Src Cfg Key Content := h.foldl (mstep S isGen) w
+
+/-- **C08 / C17 over histories that mix the command line and the build script**: from any state satisfying `Inv`, after any
+    history of edits, deletions, record losses, command-line runs, build-script runs (each forced or not, with any fault,
+    with or without a failing clean-up) and crashes, `Inv` holds: there is one directory and one record, whoever wrote it -/
+theorem mexec_inv (S : Sys Src Cfg Key Content) (isGen : Name → Bool)
+    (keySound : ∀ s c s' c', S.key s c = S.key s' c' → S.gen s c = S.gen s' c')
+    (hd : ∀ s c, NamesDistinct (S.gen s c))
+    (w : World Src Cfg Key Content) (h : List (MStep Src Cfg)) (hI : Inv S w.out) : Inv S (mexec S isGen w h).out := by
+  induction h generalizing w with
+  | nil => exact hI
+  | cons st rest ih =>
+    apply ih
+    cases st with
+    | base b => exact step_inv S keySound hd w b hI
+    | buildRun present cf forced fault => exact runBuildF_inv S isGen present cf w.src w.cfg forced fault w.out keySound (hd _ _) hI
 
 end R
